@@ -142,7 +142,7 @@ func registerRef(id, title string, specs []*refSpec, rule string, assumptions, t
 			return s.replay(v)
 		},
 		Finalize:        refFinalize,
-		Rule:            rule,
+		Rule:            rule + " All candidate sets also contain the magnitude family (2^16, 2^17, 2^31, 2^32, 2^53 neighbours, an 8-digit date) and the leading-zero family in every numeric slot, and the one-slot substitution closure of the ecosystem's typical shapes: each digit run replaced by each of 22 numeric tokens, each letter run by each of 32 words, each separator by each of 9 separators, plus appended tokens.",
 		Assumptions:     assumptions,
 		Trusted:         trusted,
 		Conformance:     firstOr(conf, ""),
